@@ -83,10 +83,12 @@ Definition c07_holds (c : c07_case) : bool :=
   let o := c_obs c in
   base_in_domain (o_before o) && ref_in_domain (c_ref1 c) && ref_in_domain (c_ref2 c) &&
   spec_navigate (o_before o) (c_ref1 c) (o_nav1 o) &&
+  spec_query (o_before o) (c_ref1 c) (o_nav1 o) &&
   spec_clean (o_nav1 o) &&
   str_eqb (o_before o) (o_after o) &&
   str_eqb (o_nav1 o) (o_nav1_again o) &&
   spec_chain (o_before o) (c_ref1 c) (c_ref2 c) (o_nav2 o) &&
+  spec_query_chain (o_before o) (c_ref1 c) (c_ref2 c) (o_nav2 o) &&
   spec_clean (o_nav2 o) &&
   spec_normalized (o_before o) (o_nb1 o) (o_nb2 o) &&
   str_eqb (o_nr1 o) (o_nr2 o).
